@@ -629,12 +629,59 @@ def impl_store(c):
         for st in stores:
             evs.append(Event(time=Instant.from_seconds(t), event_type="GossipTick", target=st))
             t += 0.25
+    # the operations as the stores execute them (public entry points wrapped per instance): local writes,
+    # serialisations (a message in flight) and merges of a received message, with the affected store's
+    # replicas after each (node id and p / n counts from to_dict())
+    oplog, msgs, keep = [], {}, []
+    idx = {nid(i): i for i in range(c["n"])}
+
+    def counts(d):
+        return [int(d.get(nid(i), 0)) for i in range(c["n"])]
+
+    def observe(st):
+        out = []
+        for key in (0, 1):
+            r = st.crdts.get(f"k{key}")
+            if r is None:
+                out.append(None)
+                continue
+            d = r.to_dict()
+            if d["type"] == "PNCounter":
+                out.append([idx[d["node_id"]], counts(d["p"]["counts"]), counts(d["n"]["counts"])])
+            else:
+                out.append([idx[d["node_id"]], counts(d["counts"]), counts({})])
+        return out
+
+    def wrap(st, i):
+        ser, mer, app = st._serialize_state, st._merge_remote_state, st._apply_operation
+
+        def serialize():
+            state = ser()
+            keep.append(state)
+            msgs[id(state)] = len(keep)
+            oplog.append([["send", len(keep), i], observe(st)])
+            return state
+
+        def merge(remote_state):
+            m = msgs.get(id(remote_state))
+            mer(remote_state)
+            oplog.append([["recv", i, -1 if m is None else m], observe(st)])
+
+        def apply(crdt, operation, value):
+            key = next(int(k[1:]) for k, v in st.crdts.items() if v is crdt)
+            app(crdt, operation, value)
+            oplog.append([["inc" if operation == "increment" else "dec", i, key, value], observe(st)])
+
+        st._serialize_state, st._merge_remote_state, st._apply_operation = serialize, merge, apply
+
+    for i, st in enumerate(stores):
+        wrap(st, i)
     sim = Simulation(end_time=Instant.from_seconds(t + 1.0), sources=[], entities=[*stores, net])
     sim.schedule(evs)
     _, verdict = run_bounded(sim, wall_s=30.0)
     vals = [{k: st.crdts[k].value for k in sorted(st.crdts)} for st in stores]
     same = all(set(st.crdts) == set(stores[0].crdts) and all(st.crdts[k] == stores[0].crdts[k] for k in st.crdts) for st in stores)
-    return dict(verdict=verdict, values=vals, same_state=same)
+    return dict(verdict=verdict, values=vals, same_state=same, oplog=oplog)
 
 
 def oracle_store(c, obs):
@@ -652,8 +699,22 @@ def oracle_store(c, obs):
     return []
 
 
-FAM_STORE = Family("store", "", "", "", gen_store, impl_store, lambda c, o: "", oracle_store,
-                   nontrivial=lambda c, o: len(c["ops"]) >= 2)
+def encode_store(c, obs):
+    steps = []
+    for op, ob in obs["oplog"]:
+        if op[0] == "send":
+            t = Ctor("SSend", op[1], op[2])
+        elif op[0] == "recv":
+            t = Ctor("SRecv", op[1], op[2])
+        else:
+            t = Ctor("SInc" if op[0] == "inc" else "SDec", op[1], op[2], op[3])
+        steps.append((t, [None if o is None else SomeV((o[0], o[1], o[2])) for o in ob]))
+    return term((list(range(c["n"])), [0, 1], steps))
+
+
+FAM_STORE = Family("store", "From HS Require Import Base.Prelude C18.Model C18.StoreModel.", "ok_store",
+                   "list Z * list Z * list (st_op * st_obs)", gen_store, impl_store, encode_store, oracle_store,
+                   nontrivial=lambda c, o: len(c["ops"]) >= 2 and any(op[0] == "recv" for op, _ in o["oplog"]))
 
 
 def run(ctx):
@@ -663,14 +724,13 @@ def run(ctx):
     ok, info = pygen.regenerate("ClocksGen")
     ctx.coverage["regenerated"] = info
     ctx.prove(["C18/Model.v", "C18/Causal.v", "C18/CRDT.v", "C18/VectorIff.v", "Base/PyLib.v", "Gen/ClocksGen.v",
-               "C18/GenTie.v", "C18/CodeSim.v", "C18/Props.v"], allowed_axioms=(), trusted_base=TRUSTED)
+               "C18/GenTie.v", "C18/CodeSim.v", "C18/StoreModel.v", "C18/Store.v", "C18/Props.v"], allowed_axioms=(), trusted_base=TRUSTED)
     if not ok and ctx.pending_obligation_violation:
         ctx.pending_obligation_violation["translator"] = info.get("error")
     n = ctx.n(250, 6000)
     stats = [run_family(ctx, fam, n) for fam in FAMILIES]
-    from hsverif.family import run_oracle_only
-    ctx.coverage["oracle_only_families"] = [run_oracle_only(ctx, FAM_STORE, ctx.n(60, 600))]
-    ctx.assumptions.append("CRDTStore (gossip entity) has no Coq model: the store family is oracle only (loss-free network, writes before and between gossip rounds)")
+    stats.append(run_family(ctx, FAM_STORE, ctx.n(80, 800)))
+    ctx.assumptions.append("CRDTStore: counter keys only (GCounter / PNCounter factories) are modelled (C18/StoreModel.v); the network, gossip timer and peer choice are not - their effect is the order of writes, serialisations and merges, replayed from real Simulation runs (loss-free network, writes before and between gossip rounds); LWW / OR-set keys in a store are not covered")
     merge_stats(ctx, stats, "random structured histories/op schedules over 2-5 replicas; non-trivial = contains a receive/merge/remove; distinct by JSON of the input")
     ctx.finish_obligations()
     ctx.assumptions += [
